@@ -73,9 +73,36 @@ def build_db(spec):
                 if any(cand) and cand not in seen:
                     seen.add(cand)
                     ids.append(cand)
+        elif mode == "special":
+            # identifiers whose CONTENT has structure: all 0xFF, trailing / embedded / leading zero bytes, bytes that look like padding,
+            # separators or pickle framing, high bit patterns; then counters in the upper byte (trailing zeros) to fill up
+            ids, seen = [], set()
+            pats = [b"\xff" * size, b"\x01" + b"\x00" * (size - 1), b"\x00" * (size - 1) + b"\x01", b"\x80" + b"\x00" * (size - 1),
+                    (b"\x80\x04\x95" * size)[:size], (b".\x94\x8c" * size)[:size], bytes([size % 256 or 1]) * size, b"\x10" * size,
+                    (b"\x00\xff" * size)[:size], (b"\xff\x00" * size)[:size], (b"\n\r\t " * size)[:size], (b"\xef\xbb\xbf" * size)[:size],
+                    b"\x7f" * size, (b"\x00\x00\x01\x00" * size)[:size]]
+            rot = (spec.get("id_seed", 0) + 3 * j) % len(pats)
+            for cand in pats[rot:] + pats[:rot]:
+                if len(ids) < n and any(cand) and cand not in seen:
+                    seen.add(cand)
+                    ids.append(cand)
+            ctr = spec.get("id_seed", 0) + 17 * j
+            while len(ids) < n:
+                ctr += 1
+                cand = _enc_id(ctr % M + 1, size, "le")
+                if cand not in seen:
+                    seen.add(cand)
+                    ids.append(cand)
         else:
             raise ValueError(mode)
         db[B(kw)] = ids
+    if spec.get("alias") and len(db) >= 2:
+        # the caller files ONE list object under two keywords (and, with alias_reversed, the same identifiers in reverse order
+        # under a third): equal posting lists are valid, and so is sharing the object
+        ks = list(db)
+        a, b_ = spec["alias"][0] % len(ks), spec["alias"][1] % len(ks)
+        if a != b_:
+            db[ks[a]] = db[ks[b_]]
     return db
 
 
@@ -113,7 +140,7 @@ def st_keywords(draw, count, limit):
     if base[0] == 0:
         base = b"\x01" + base[1:]
     add(base)
-    fam = draw(st.sampled_from(["none", "none", "prefix", "suffix", "bitflip", "trailing_nul", "maxlen", "ascii"]))
+    fam = draw(st.sampled_from(["none", "none", "prefix", "suffix", "bitflip", "trailing_nul", "maxlen", "ascii", "framing", "utf8"]))
     if fam == "prefix":
         add(base + b"x")
         add(base[:-1])
@@ -134,6 +161,14 @@ def st_keywords(draw, count, limit):
         add(b"keyword")
         add(b"Keyword")
         add(b"keywor")
+    elif fam == "framing":
+        # bytes that look like separators, padding or serialization framing
+        for b in (b"\x80\x04\x95", b".", b"\x10" * min(limit, 16), b"a\x00b", b"a\x00", b"\xff", b"\xff\xff", b"\x01", b"\x01\x00",
+                  b"1", b"2", b"\x01\x01", b"a|b", b"a,b", b"[]", b"\xef\xbb\xbfkw"):
+            add(b[:limit])
+    elif fam == "utf8":
+        for s in ("\u00e4", "\u00e4\u00df", "\u6f22\u5b57", "\U0001f642", "a\u0308", "\u00c4", "\ufeffkw", "kw\u200b"):
+            add(s.encode("utf-8")[:limit])
     tries = 0
     while len(out) < count and tries < 200:
         tries += 1
@@ -171,6 +206,19 @@ def grown_db(desc, cfg, db):
     if isinstance(desc, Pi2Lev) and not desc.lens_ok(cfg, lens):
         return None
     return out
+
+
+def _alias_ok(desc, cfg, lens, i, j):
+    """filing list j under keyword i as well keeps the database inside the configuration's capacities"""
+    new = list(lens)
+    new[i] = new[j]
+    if sum(new) > max(sum(lens), 1) and sum(new) > desc.max_total(cfg):
+        return False
+    if desc.name == "CGKO06.SSE1" and sum(new) > cfg["param_s"] - 1:
+        return False
+    if isinstance(desc, Pi2Lev) and not desc.lens_ok(cfg, new):
+        return False
+    return True
 
 
 def absent_keywords(db_kws, limit, extra):
@@ -692,7 +740,7 @@ def st_db_spec(draw, desc, cfg, max_total=None, max_kw=12, lens=None):
     idsz = desc.id_size(cfg)
     kws = draw(st_keywords(len(lens), desc.kw_limit(cfg)))
     M = 256 ** idsz - 1
-    modes = ["be", "le", "rand", "pool"] if idsz >= 2 else ["be", "pool"]
+    modes = ["be", "le", "rand", "pool", "special"] if idsz >= 2 else ["be", "pool", "special"]
     mode = draw(st.sampled_from(modes))
     if mode in ("be", "le") and sum(lens) > M:
         mode = "pool"
@@ -700,10 +748,20 @@ def st_db_spec(draw, desc, cfg, max_total=None, max_kw=12, lens=None):
             "id_seed": draw(st.integers(0, 1000)), "profile": label}
     if mode == "pool":
         spec["pool_shift"] = draw(st.sampled_from([1, 1, 2, 3]))
+    if len(lens) >= 2 and draw(st.integers(0, 5)) == 0:
+        i, j = draw(st.integers(0, len(lens) - 1)), draw(st.integers(0, len(lens) - 1))
+        if i != j and label == "given":
+            if spec["lens"][i] == spec["lens"][j]:   # the caller fixed the lengths: only lists of equal length can be one object
+                spec["alias"] = [i, j]
+        elif i != j and _alias_ok(desc, cfg, lens, i, j):
+            spec["alias"] = [i, j]
+            spec["lens"][i] = spec["lens"][j]
     if draw(st.booleans()):  # iteration order of the dict is part of the input
         order = draw(st.permutations(list(range(len(lens)))))
         spec["kws"] = [spec["kws"][i] for i in order]
         spec["lens"] = [spec["lens"][i] for i in order]
+        if "alias" in spec:
+            spec["alias"] = [list(order).index(x) for x in spec["alias"]]
     return spec
 
 
